@@ -125,6 +125,11 @@ impl Stream {
         &self,
         data: Bytes,
     ) -> std::result::Result<(), mpsc::error::SendError<(u32, Bytes)>> {
+        // Once the stream has been closed (its session died) the queue may still exist
+        // for a moment but nobody will forward from it: report the failure to the caller.
+        if self.is_closed() {
+            return Err(mpsc::error::SendError((self.id, data)));
+        }
         self.writer_tx.send((self.id, data))
     }
 }
